@@ -227,6 +227,46 @@ def unit_shape(a):
     return stats
 
 
+def check_concurrent(case, stats):
+    """rows split by several threads at once (each thread has its own GherkinLine objects): every result == reference"""
+    import sys
+    import threading
+    rows = ["| a%d | \\| b%d | c \\n d | %s |" % (i, i, "x" * (i % 7)) for i in range(60)]
+    want = [ref_row(r + "\n") for r in rows]
+    errors = []
+
+    def work(k):
+        try:
+            for rep in range(case["reps"]):
+                for i in range(len(rows)):
+                    j = (i * 7 + k) % len(rows)
+                    got = [(c["text"], c["column"]) for c in gh.GherkinLine(rows[j] + "\n", 1).table_cells]
+                    if got != want[j]:
+                        errors.append((rows[j], got, want[j]))
+                        return
+        except BaseException as e:  # noqa
+            errors.append(("exception", repr(e), None))
+    old = sys.getswitchinterval()
+    sys.setswitchinterval(1e-6)
+    try:
+        ts = [threading.Thread(target=work, args=(k,), daemon=True) for k in range(4)]
+        for t in ts:
+            t.start()
+        for t in ts:
+            t.join(300)
+    finally:
+        sys.setswitchinterval(old)
+    stats.case(("concurrent", case["reps"]), True, sample=case)
+    if errors:
+        raise Violation(case, "row %r split while other threads were splitting rows too gives %r, expected %r" % errors[0])
+
+
+def unit_concurrent(a):
+    stats = Stats()
+    sweep(stats, [{"sub": "concurrent", "reps": a["reps"]}], check_concurrent)
+    return stats
+
+
 def unit_wide(a):
     stats = Stats()
     cases = []
@@ -239,7 +279,7 @@ def unit_wide(a):
 
 
 def replay(case, stats):
-    return {"row": check_row, "roundtrip": check_roundtrip, "shape": check_shape}[case["sub"]](case, stats)
+    return {"row": check_row, "roundtrip": check_roundtrip, "shape": check_shape, "concurrent": check_concurrent}[case["sub"]](case, stats)
 
 
 def run(ctx):
@@ -253,6 +293,7 @@ def run(ctx):
               [{"n": 2250 if q else 20000, "seed": ctx.seed, "shard": i} for i in range(8 if q else 16)], procs=16)
     ctx.units("roundtrip", unit_roundtrip,
               [{"n": 900 if q else 8000, "seed": ctx.seed, "shard": i} for i in range(8 if q else 16)], procs=16)
+    ctx.units("rows-concurrent-threads", unit_concurrent, [{"reps": 30 if q else 300}])
     ctx.units("table-shape-wide", unit_wide, [{"widths": [9, 10, 11, 31, 32, 33, 64, 100, 127, 128, 129, 255, 256, 257, 258, 300, 1000] + ([] if q else [4096, 65537])}])
     ctx.units("table-shape", unit_shape,
               [{"n": 750 if q else 6000, "seed": ctx.seed, "shard": i} for i in range(8 if q else 16)], procs=16)
